@@ -361,45 +361,90 @@ Definition result_covered (f : flow) (nc : text * text) : Prop :=
   exists s, In s (inspect_results f) /\ rs_key s = snakify (fst nc)
             /\ (snd nc = [] \/ contains_fold (rs_cats s) (snd nc) = true).
 
-Lemma results_covered_under : forall A tr,
-  forallb valid_flow A = true -> flows_avoid_undeclared A = true -> accepts A tr = true ->
-  forall fid nc, In (fid, nc) (saved_results tr) ->
-  exists f, lookup_flow A fid = Some f /\ result_covered f nc.
+(* a saved (name, category) that is exactly F16: saved by an open_ticket action of the flow under its result_name *)
+Definition saved_by_open_ticket (f : flow) (nc : text * text) : Prop :=
+  exists n a, In n (f_nodes f) /\ In a (n_actions n) /\ a_behav a = BSaver SvOpenTicket (fst nc).
+
+(* every step of the trace is one the model can take (what [accepts] establishes, and what the executable engine
+   of model/InspectExec.v establishes for its own traces) *)
+Definition steps_ok (A : list flow) (tr : list ostep) : Prop :=
+  forall o, In o tr -> exists f n, step_facts A o f n.
+
+Lemma accepts_steps_ok : forall A tr, accepts A tr = true -> steps_ok A tr.
+Proof. intros A tr H o Ho. apply (accepts_from_steps A tr [] H o Ho). Qed.
+
+(* an action that can save (name, cat) either declares it, or is an open_ticket saving under its result_name *)
+Lemma action_can_save_declared_or_f16 : forall a nc,
+  valid_action a = true -> action_can_save a nc = true ->
+  (exists i, In i (action_result_infos a) /\ nc_covered_by i nc) \/ a_behav a = BSaver SvOpenTicket (fst nc).
 Proof.
-  intros A tr Hv Hu Hacc fid nc Hin. unfold saved_results in Hin. apply in_flat_map in Hin.
-  destruct Hin as [o [Ho Hnc]]. apply in_map_iff in Hnc. destruct Hnc as [nc' [Heq Hnc]].
-  inversion Heq; subst fid nc'; clear Heq.
-  destruct (accepts_from_steps A tr [] Hacc o Ho) as [f [n F]]. destruct F as [Ff Fn Fs _ _].
-  exists f. split; [exact Ff|].
+  intros a nc Hv Hs. destruct (action_avoids_undeclared a) eqn:Hu.
+  - left. apply action_can_save_declared; assumption.
+  - right. unfold action_avoids_undeclared in Hu. unfold action_can_save in Hs.
+    destruct (a_behav a) as [| | |s rn]; try discriminate.
+    rewrite saver_ok_table in Hu. destruct s; try discriminate.
+    apply andb_true_iff in Hs. destruct Hs as [Hs _]. apply andb_true_iff in Hs. destruct Hs as [_ Hname].
+    apply text_eqb_eq in Hname. rewrite Hname. reflexivity.
+Qed.
+
+Lemma step_results_covered : forall A o f n,
+  forallb valid_flow A = true -> step_facts A o f n ->
+  forall nc, In nc (os_saved o) -> result_covered f nc \/ saved_by_open_ticket f nc.
+Proof.
+  intros A o f n Hv F nc Hnc. destruct F as [Ff Fn Fs _ _].
   assert (HfA : In f A) by (apply lookup_flow_In with (id := os_flow o); exact Ff).
   assert (Hvn : valid_node n = true) by (apply valid_flows_node with (A := A) (f := f); assumption).
   destruct (match_saves_sound _ _ Fs nc Hnc) as [e [He Henc]].
-  assert (Hinfo : exists i, In i (node_result_infos n) /\ nc_covered_by i nc).
+  assert (Hinfo : (exists i, In i (node_result_infos n) /\ nc_covered_by i nc) \/ saved_by_open_ticket f nc).
   { unfold node_emitters in He. apply in_app_or in He. destruct He as [He|He].
     - apply in_map_iff in He. destruct He as [a [Hea Ha]]. subst e.
       unfold valid_node in Hvn. apply andb_true_iff in Hvn. destruct Hvn as [Hva _].
       rewrite forallb_forall in Hva.
-      unfold flows_avoid_undeclared in Hu. rewrite forallb_forall in Hu. specialize (Hu f HfA).
-      rewrite forallb_forall in Hu. specialize (Hu n Fn). rewrite forallb_forall in Hu.
-      destruct (action_can_save_declared a nc (Hva a Ha) (Hu a Ha) Henc) as [i [Hi Hc]].
-      exists i. split; [|exact Hc]. unfold node_result_infos. apply in_or_app. left.
-      apply in_flat_map. exists a. split; assumption.
-    - destruct (n_router n) as [r|] eqn:Er; [|destruct He]. destruct He as [He|He]; [|destruct He]. subst e.
+      destruct (action_can_save_declared_or_f16 a nc (Hva a Ha) Henc) as [[i [Hi Hc]]|H16].
+      + left. exists i. split; [|exact Hc]. unfold node_result_infos. apply in_or_app. left.
+        apply in_flat_map. exists a. split; assumption.
+      + right. exists n, a. split; [exact Fn|]. split; [exact Ha | exact H16].
+    - left. destruct (n_router n) as [r|] eqn:Er; [|destruct He]. destruct He as [He|He]; [|destruct He]. subst e.
       destruct (router_can_save_declared r (os_exit o) nc Henc) as [i [Hi Hc]].
       exists i. split; [|exact Hc]. unfold node_result_infos. apply in_or_app. right. rewrite Er. exact Hi. }
-  destruct Hinfo as [i [Hi [Hkey Hcat]]].
+  destruct Hinfo as [[i [Hi [Hkey Hcat]]]|H16]; [left|right; exact H16].
   destruct (inspect_results_covers f n i Fn Hi) as [s [Hs [Hk Hc]]].
   exists s. split; [exact Hs|]. split; [rewrite Hk; exact Hkey|].
   destruct Hcat as [Hcat|Hcat]; [left; exact Hcat | right; apply Hc; exact Hcat].
 Qed.
 
-(* the statement with the one exclusion the table forces: flows without open_ticket actions *)
+(* the sharp statement: every saved result is covered, or it is exactly an open_ticket's result (F16) *)
+Lemma results_covered_or_f16_steps : forall A tr,
+  forallb valid_flow A = true -> steps_ok A tr ->
+  forall fid nc, In (fid, nc) (saved_results tr) ->
+  exists f, lookup_flow A fid = Some f /\ (result_covered f nc \/ saved_by_open_ticket f nc).
+Proof.
+  intros A tr Hv Hok fid nc Hin. unfold saved_results in Hin. apply in_flat_map in Hin.
+  destruct Hin as [o [Ho Hnc]]. apply in_map_iff in Hnc. destruct Hnc as [nc' [Heq Hnc]].
+  inversion Heq; subst fid nc'; clear Heq.
+  destruct (Hok o Ho) as [f [n F]]. exists f. split; [apply (sf_flow _ _ _ _ F)|].
+  apply step_results_covered with (A := A) (o := o) (n := n); assumption.
+Qed.
+
+Lemma results_covered_or_f16 : forall A tr,
+  forallb valid_flow A = true -> accepts A tr = true ->
+  forall fid nc, In (fid, nc) (saved_results tr) ->
+  exists f, lookup_flow A fid = Some f /\ (result_covered f nc \/ saved_by_open_ticket f nc).
+Proof. intros A tr Hv Hacc. apply results_covered_or_f16_steps; [exact Hv | apply accepts_steps_ok; exact Hacc]. Qed.
+
+(* corollary: flows without open_ticket actions *)
 Lemma results_covered_partial : forall A tr,
   forallb valid_flow A = true -> no_open_ticket A = true -> accepts A tr = true ->
   forall fid nc, In (fid, nc) (saved_results tr) ->
   exists f, lookup_flow A fid = Some f /\ result_covered f nc.
 Proof.
-  intros A tr Hv Hn. apply results_covered_under; [exact Hv | apply no_open_ticket_avoids; exact Hn].
+  intros A tr Hv Hn Hacc fid nc Hin.
+  destruct (results_covered_or_f16 A tr Hv Hacc fid nc Hin) as [f [Hf [Hc|[n [a [Hn' [Ha Hb]]]]]]].
+  - exists f. split; assumption.
+  - exfalso. unfold no_open_ticket in Hn. rewrite forallb_forall in Hn.
+    specialize (Hn f (lookup_flow_In _ _ _ Hf)). rewrite forallb_forall in Hn. specialize (Hn n Hn').
+    rewrite forallb_forall in Hn. specialize (Hn a Ha). unfold action_not_open_ticket in Hn. rewrite Hb in Hn.
+    discriminate.
 Qed.
 
 (* ---- the full statement is false of the model: F16 *)
@@ -460,8 +505,8 @@ Proof.
   apply N.eqb_eq in He. subst e. apply in_map. exact Hx.
 Qed.
 
-Lemma waiting_exits_listed : forall A tr,
-  forallb valid_flow A = true -> accepts A tr = true ->
+Lemma waiting_exits_listed_steps : forall A tr,
+  forallb valid_flow A = true -> steps_ok A tr ->
   forall fid e, In (fid, e) (resumed_exits tr) ->
   exists f, lookup_flow A fid = Some f /\ In e (waiting_exits f).
 Proof.
@@ -469,7 +514,7 @@ Proof.
   destruct Hin as [o [Ho He]].
   destruct (os_exit o) as [e'|] eqn:Ee; [|destruct He]. destruct (os_resumed o) eqn:Er; [|destruct He].
   destruct He as [He|[]]. inversion He; subst fid e'; clear He.
-  destruct (accepts_from_steps A tr [] Hacc o Ho) as [f [n F]]. destruct F as [Ff Fn _ _ Fe].
+  destruct (Hacc o Ho) as [f [n F]]. destruct F as [Ff Fn _ _ Fe].
   exists f. split; [exact Ff|].
   assert (HfA : In f A) by (apply lookup_flow_In with (id := os_flow o); exact Ff).
   assert (Hvn : valid_node n = true) by (apply valid_flows_node with (A := A) (f := f); assumption).
@@ -481,6 +526,12 @@ Proof.
   apply existsb_exists in Hx. destruct Hx as [c [Hc Hce]]. apply N.eqb_eq in Hce. subst e.
   rewrite forallb_forall in Hcats. apply exit_in_In. apply Hcats. exact Hc.
 Qed.
+
+Lemma waiting_exits_listed : forall A tr,
+  forallb valid_flow A = true -> accepts A tr = true ->
+  forall fid e, In (fid, e) (resumed_exits tr) ->
+  exists f, lookup_flow A fid = Some f /\ In e (waiting_exits f).
+Proof. intros A tr Hv Hacc. apply waiting_exits_listed_steps; [exact Hv | apply accepts_steps_ok; exact Hacc]. Qed.
 
 (* conversely the list is exact: only exits of nodes whose router has a wait *)
 Lemma waiting_exits_only_waits : forall f e, In e (waiting_exits f) ->
@@ -524,15 +575,15 @@ Proof.
   intro H. apply dedup_refs_sub in H. destruct H as [_ H]. apply H. left. reflexivity.
 Qed.
 
-Lemma dependencies_listed : forall A tr,
-  accepts A tr = true ->
+Lemma dependencies_listed_steps : forall A tr,
+  steps_ok A tr ->
   forall fid r, In (fid, r) (assets_touched tr) ->
   exists f, lookup_flow A fid = Some f /\ In r (dependencies f) /\ ref_variable r = false.
 Proof.
   intros A tr Hacc fid r Hin. unfold assets_touched in Hin. apply in_flat_map in Hin.
   destruct Hin as [o [Ho Hr]]. apply in_map_iff in Hr. destruct Hr as [r' [Heq Hr]].
   inversion Heq; subst fid r'; clear Heq.
-  destruct (accepts_from_steps A tr [] Hacc o Ho) as [f [n F]]. destruct F as [Ff Fn _ Ft _].
+  destruct (Hacc o Ho) as [f [n F]]. destruct F as [Ff Fn _ Ft _].
   exists f. split; [exact Ff|].
   unfold touched_ok in Ft. rewrite forallb_forall in Ft. specialize (Ft r Hr). apply ref_in_In in Ft.
   assert (Hfix : ref_variable r = false).
@@ -542,6 +593,12 @@ Proof.
   destruct (dedup_refs_keeps (extract_refs f) [] r) as [H|H]; [|destruct H|exact H].
   unfold extract_refs. apply in_flat_map. exists n. split; assumption.
 Qed.
+
+Lemma dependencies_listed : forall A tr,
+  accepts A tr = true ->
+  forall fid r, In (fid, r) (assets_touched tr) ->
+  exists f, lookup_flow A fid = Some f /\ In r (dependencies f) /\ ref_variable r = false.
+Proof. intros A tr Hacc. apply dependencies_listed_steps. apply accepts_steps_ok. exact Hacc. Qed.
 
 (* the dependency list has no duplicates and nothing that is not written in the flow *)
 Lemma dependencies_exact : forall f,
